@@ -34,3 +34,6 @@ add('C08', 'exploration', 'deviation-bounded exhaustive enumeration of grammar d
 add('C10', 'exploration', 'deviation-bounded exhaustive enumeration of grammar derivations x the three normal-form options (reindent x every sub-option combination), postconditions on the re-lexed output',
     'Every case within d deviations of 40 seed derivations crossed with strip_whitespace, use_space_around_operators, and reindent under every sub-option combination (288); the normal-form postconditions are checked on the re-tokenised output and the two fixed points on exact text. Exhaustive within d.',
     _E2, 'DESIGN.md 4/C10')
+add('C11', 'exploration', 'deviation-bounded exhaustive enumeration of respellings (whitespace, keyword-inner whitespace, keyword case, uniform styles) of grammar derivations and of scripts',
+    'For every seed derivation and derivations within d deviations, every respelling with up to d choices (one gap, one multi-word keyword, one keyword case, or one of 10 uniform styles) is parsed and its shape (statement count, types, node classes, leaf types) compared with the base spelling; plus every pair/triple of plain and procedural statements under every spelling of the whitespace after each semicolon. Exhaustive within d.',
+    _E2, 'DESIGN.md 4/C11')
